@@ -169,6 +169,8 @@ def eval_case(case):
     spec's domain for modular ops on non-canonical operands, equal the portable 64-bit pivot)."""
     if case["sub"] == "dispatch":
         return eval_dispatch()
+    if case["sub"] == "platform":
+        return eval_platform()
     if case["sub"] == "arm":
         from armsim import runner
         return runner.eval_case(case)
@@ -245,11 +247,58 @@ def eval_dispatch():
     return msgs
 
 
+PLATFORM_NOTE = {}
+
+
+def eval_platform():
+    """harness/platform_vectors.cpp (C interface only: scalar multiplications over word-pattern scalars, hashing, sampling from a fixed stream,
+    pairings, a WKD-IBE and an LQ-IBE run, everything as marshalled bytes) built natively on three back ends and as a freestanding i386
+    executable that really runs under the ILP32 data model: all outputs must be identical line by line."""
+    msgs = []
+    outs = {}
+    for cfg in ("asm", "c64", "c32"):
+        exe = build.build_exe(cfg, "platform_vectors", ["platform_vectors.cpp"])
+        p = subprocess.run([exe], stdout=subprocess.PIPE, stderr=subprocess.PIPE, text=True, timeout=600)
+        if p.returncode != 0 or not p.stdout.endswith("end 0 0000000000000000\n"):
+            msgs.append("%s: platform_vectors exits with %d (%s)" % (cfg, p.returncode, p.stderr[-200:]))
+            continue
+        outs[cfg] = p.stdout.splitlines()
+    PLATFORM_NOTE.clear()
+    try:
+        exe = build.build_ilp32_exe("platform_vectors", "platform_vectors.cpp")
+        try:
+            p = subprocess.run([exe], stdout=subprocess.PIPE, stderr=subprocess.PIPE, text=True, timeout=900)
+        except OSError as e:
+            PLATFORM_NOTE["ilp32"] = "this kernel does not execute i386 programs (%s): ILP32 execution skipped" % e
+            p = None
+        if p is not None:
+            if p.returncode != 0 or not p.stdout.endswith("end 0 0000000000000000\n"):
+                msgs.append("ilp32-i386: platform_vectors ends with status %d after %d lines (a crash or a call that is wrong only under ILP32)" % (p.returncode, len(p.stdout.splitlines())))
+            outs["ilp32-i386"] = p.stdout.splitlines()
+            PLATFORM_NOTE["ilp32"] = "executed (%d result lines)" % len(outs["ilp32-i386"])
+    except build.BuildError as e:
+        if e.kind == "library":
+            msgs.append("the portable sources do not compile for i386 (ILP32): %s" % e.msg[-400:])
+        else:
+            raise
+    ref_cfg = "asm" if "asm" in outs else (sorted(outs)[0] if outs else None)
+    for cfg, lines in outs.items():
+        if cfg == ref_cfg:
+            continue
+        ref_lines = outs[ref_cfg]
+        diffs = [(a, b) for a, b in zip(ref_lines, lines) if a != b]
+        if diffs or len(lines) != len(ref_lines):
+            first = diffs[0] if diffs else ("(%d lines)" % len(ref_lines), "(%d lines)" % len(lines))
+            groups = sorted({a.split()[0] for a, _ in diffs})
+            msgs.append("%s and %s disagree on %d of %d results (%s); first: '%s' vs '%s'" % (ref_cfg, cfg, len(diffs), len(ref_lines), ", ".join(groups[:6]), first[0], first[1]))
+    return msgs
+
+
 # ------------------------------------------------------------------------------------------ shards
 def shards(ctx):
     for c in ("asm", "c64", "c32"):
         sweep_exe(c)
-    out = [{"sub": "dispatch"}]
+    out = [{"sub": "dispatch"}, {"sub": "platform"}]
     for bits in (384, 256):
         level = level_for(ctx.tier, bits)
         path, vals = operand_file(bits, level, ctx.seed)
@@ -280,6 +329,13 @@ def shards(ctx):
 
 def run_shard(ctx, shard):
     sub = shard["sub"]
+    if sub == "platform":
+        msgs = eval_platform()
+        ctx.ok(True, "platform-vectors", n=808 * 4)
+        ctx.ok(True, "platform-vectors:ilp32:" + ("executed" if PLATFORM_NOTE.get("ilp32", "").startswith("executed") else "not-executed"), n=0)
+        if msgs:
+            ctx.fail({"sub": "platform"}, "; ".join(msgs[:3]), sig="platform:" + msgs[0].split(":")[0][:30])
+        return
     if sub == "dispatch":
         msgs = eval_dispatch()
         ctx.ok(True, "dispatch")
@@ -431,7 +487,7 @@ def replay(ctx, case):
 
 
 def finish(merged, cov):
-    need = ["dispatch", "sweep:bi_add<384>", "sweep:fp_multiply<384>", "sweep:montgomery_reduce<384>", "pyrow:fp_multiply"]
+    need = ["dispatch", "platform-vectors", "sweep:bi_add<384>", "sweep:fp_multiply<384>", "sweep:montgomery_reduce<384>", "pyrow:fp_multiply"]
     missing = [n for n in need if not merged.outcomes.get(n)]
     if missing:
         return "expected outcome classes never exercised: %s" % missing
